@@ -35,13 +35,16 @@ if not os.path.exists(DRV):          # the proof gate already recorded why the b
     ck.finish()
 
 # conjuncts of WF -> how a failure of the real code at that point is classified
-FINDINGS = {"uint-ge-2^63", "str-no-nul", "blk-size-ge-2^32", "data-type-p", "label-before-endfunc",
-            "stale-insn-code", "ref-shadowed-by-reg", "bss-ge-2^63", "expr-item-output"}
+FINDINGS = {"uint-ge-2^63", "str-no-nul", "ref-shadowed-by-reg", "bss-ge-2^63"}
+# fixed in /repo (ed61a8c4, fae404b2, d0e0dd68, 50bfb807, c54177e4) and followed by the model: expr-item-output,
+# stale-insn-code, label-before-endfunc, data-type-p, blk-size-ge-2^32 — their probes are now ordinary WF cases
 BY_DESIGN = {"label-numbering"}      # labels are symbolic in the text: renumbering is alpha-conversion
 DOMAIN = {"item-name", "var-name", "reg-name", "ref-name", "mem-names", "float-literal", "str-not-bytes",
           "label-zero", "label-position", "ref-undeclared", "add-item", "insn-code", "insn-nops",
           "reserved-reg-name", "repeated-reg", "shared-hard-reg", "func-not-finished", "blk-result",
-          "vararg-no-args", "data-type-blk", "expr-func", "label-defined-twice", "unclassified"}
+          "vararg-no-args", "data-type-blk", "expr-func", "label-defined-twice", "unclassified",
+          # a block parameter of >= 2^63 bytes: `t.u.i < 0` in the scanner; no object can have that size
+          "blk-size-ge-2^63"}
 
 stats = {"gen_cases": 0, "gen_miss": 0, "wf_ok": 0, "wf_ok_roundtrip": 0, "print_equal": 0, "scan_agree": 0,
          "scan_unmodelled": 0, "runs": 0, "runs_equal": 0, "probe": {}, "excluded_but_ok": {},
@@ -422,7 +425,7 @@ def first_diff(a, b):
 
 PROBES = ["uint-ge-2^63", "str-no-nul", "blk-size-ge-2^32", "data-type-p", "label-before-endfunc",
           "stale-insn-code", "ref-shadowed-by-reg", "bss-ge-2^63", "expr-item", "float-literal",
-          "label-numbering", "bad-name", "strdata-no-nul", "label-position", "ref-undeclared"]
+          "label-numbering", "bad-name", "strdata-no-nul", "label-position", "ref-undeclared", "blk-size-ge-2^63"]
 
 
 def gen_cases(rng, table):
